@@ -1343,3 +1343,33 @@ Proof.
   - destruct (H2 b eq_refl) as (A & B & _). split; assumption.
   - exact (H1 eq_refl).
 Qed.
+
+(* ---- C11 / C02: two facts the manager-side oracles evaluate on the real Session, for the model ---------------- *)
+(* a piece that becomes owned is broadcast to the established connections in the same step *)
+Theorem newly_owned_is_broadcast m c pick m' r bc sp i :
+  mstep m c pick = Ok (m', r, bc, sp) -> ~ have_at (m_status m) i -> have_at (m_status m') i ->
+  In (BHave (N.of_nat i)) bc.
+Proof.
+  intros H Hn Hh. destruct (only_done_makes_have m c pick m' r bc sp i H Hn Hh) as (a & p & -> & Ep & Ei).
+  cbn [mstep] in H. rewrite Ep, Ei in H.
+  destruct (nthN (m_status m) (N.of_nat i)); [|discriminate].
+  destruct (peer_handle_piece _ a p pick) as [[[[m2 rep2] bc2] sp2]| | |]; cbn [bind] in H; try discriminate.
+  injection H as _ _ <- _. left. reflexivity.
+Qed.
+
+(* a peer that does not choke us, holds no assignment, and announces a piece we miss and had no interest in so far
+   is asked for that piece in the same exchange (it need not unchoke us again) *)
+Theorem idle_announcer_is_asked m a i pick p st m' r bc sp :
+  pget (m_peers m) a = Some p -> nthN (m_status m) i = Some st ->
+  is_missing st = true -> p_am_interested p = false -> p_choked p = false -> p_piece_index p = None ->
+  mstep m (CHave a i) pick = Ok (m', r, bc, sp) ->
+  exists l, r = RHave_IntReq i l /\ nthN (m_status m') i = Some (Reserved 1) /\
+            exists p', pget (m_peers m') a = Some p' /\ p_piece_index p' = Some i.
+Proof.
+  intros Ep Es Hm Hi Hc Hx H. cbn [mstep] in H. rewrite Ep in H.
+  destruct (len (p_pieces p) <=? i); [discriminate|]. rewrite Es, Hm, Hi, Hc, Hx in H. cbn [negb andb] in H.
+  destruct (plen_of m i) as [l| | |]; cbn [bind] in H; try discriminate. unfold out in H. injection H as <- <- _ _.
+  exists l. split; [reflexivity|]. split.
+  - cbn [with_peer with_status m_status]. rewrite nthN_sset, N.eqb_refl, Es. reflexivity.
+  - eexists. split; [cbn [with_peer with_status m_peers]; apply pget_pset_same | reflexivity].
+Qed.
